@@ -170,7 +170,7 @@ def run_prog_property(ctx, prop_files, gen_case, classes, n_quick, n_thorough, r
     """Generic driver: build, generate cases, run implementation + model, compare the ops of `classes`.
     gen_case(rng, tier) -> (script, meta dict).  classify(script, meta, mism) -> signature or None."""
     import os
-    prop_files = [f for f in prop_files if os.path.exists(os.path.join(vlib.COQ, f))]
+    prop_files = vlib.listed_props(prop_files)
     vlib.build(ctx, prop_files, variants=tuple(variants) if variants else (variant,))
     if pre_run:
         pre_run(ctx)
